@@ -86,7 +86,21 @@ def arrays_prog(rnd, n, W):
             if n:
                 item = idx(name, I(n - 1))
                 body += [write(is_(item, 'int') if el == 'byte' else item), write(C('\n'))]
-    # locals must be declared before use: move declarations first (already in order)
+    # equal-valued constant arrays of different element types must not share storage
+    if n:
+        small = [rnd.randrange(256) for _ in range(n)]
+        same = [('int', tuple(I(v) for v in small)), ('byte', tuple(I(v) for v in small)),
+                ('byte', tuple(C(v) for v in small))]
+        bits = [bool(v & 1) for v in small[:8]]
+        packed = sum(1 << i for i, b in enumerate(bits) if b)
+        same += [('bool', tuple(B(b) for b in bits)), ('int', (I(packed),)), ('byte', (I(packed),))]
+        rnd.shuffle(same)
+        for el, vals in same:
+            k += 1
+            name = f'sm{k}'
+            d = decl(arr(el, True), name, ('arr', vals), True)
+            (glob if rnd.random() < 0.5 else body).append(d)
+            body += [ex(call('dump', V(name))), write(ln(name)), write(C('\n'))]
     return prog(glob, dumps + [func('empty', '@is_you', [], *body)])
 
 
